@@ -50,7 +50,12 @@ Rec(op, rows, fail, evs, a) ==
 Init == InitWith(<<>>) /\ hist = <<>>
 
 \* In simulation every kind of step gets the same weight (one random instance per kind).
-Pick(S) == IF Sim THEN {RandomElement(S)} ELSE S
+\* (the index set mentions the state so that TLC does not cache the choice as a constant)
+RECURSIVE SeqOf(_)
+SeqOf(S) == IF S = {} THEN <<>> ELSE LET x == CHOOSE y \in S : TRUE IN <<x>> \o SeqOf(S \ {x})
+Pick(S) == IF Sim THEN {RandomElement({x \in S : Len(hist) >= 0})} ELSE S
+ListSeq == SeqOf(Lists)
+PickList == IF Sim THEN {ListSeq[RandomElement(1 .. (Len(ListSeq) + 0 * Len(hist)))]} ELSE Lists
 
 \* ids and addresses are interchangeable: the first step of an enumerated history uses
 \* canonical lists (i1 at a1, i2 at a2, ...) and the first peer address only
@@ -60,19 +65,19 @@ A0 == IF Len(hist) = 0 /\ ~Sim THEN {C0addr, CanonAddrs[1]} ELSE AllAddrs
 \* a list that differs from the current truth (for refreshes that fail: nothing of it may be applied)
 Other == IF truth = <<>> THEN <<[id |-> CanonIds[1], addr |-> CanonAddrs[1], inv |-> "ok"]>> ELSE <<>>
 
-RefreshSteps == \E l \in Pick(L0) : Refresh(l, "none") /\ Rec("refresh", l, "none", <<>>, "")
+RefreshSteps == \E l \in (IF Sim THEN PickList ELSE L0) : Refresh(l, "none") /\ Rec("refresh", l, "none", <<>>, "")
 
 MixedSteps ==
   \/ \E f \in Pick({"local", "peers"}) : Refresh(Other, f) /\ Rec("refresh", Other, f, <<>>, "")
   \/ \E b \in Pick({x \in StatusBatches : x[1].addr \in A0}) : Events(truth, b) /\ Rec("events", truth, "none", b, "")
-  \/ \E b \in Pick({<<Ev("NEW_NODE", CanonAddrs[1])>>}) : \E l \in Pick(L0) : Events(l, b) /\ Rec("events", l, "none", b, "")
+  \/ \E b \in Pick({<<Ev("NEW_NODE", CanonAddrs[1])>>}) : \E l \in (IF Sim THEN PickList ELSE L0) : Events(l, b) /\ Rec("events", l, "none", b, "")
   \/ \E b \in Pick({x \in TopoBatches : x[1].addr \in A0 /\ (Sim \/ x # <<Ev("NEW_NODE", CanonAddrs[1])>>)}) :
-        \E l \in (IF Sim THEN Pick(Lists) ELSE {truth}) : Events(l, b) /\ Rec("events", l, "none", b, "")
-  \/ Sim /\ \E b \in Pick({<<Ev("UP", a)>> : a \in Addrs}) : \E l \in Pick(Lists) : Events(l, b) /\ Rec("events", l, "none", b, "")
+        \E l \in (IF Sim THEN PickList ELSE {truth}) : Events(l, b) /\ Rec("events", l, "none", b, "")
+  \/ Sim /\ \E b \in Pick({<<Ev("UP", a)>> : a \in Addrs}) : \E l \in PickList : Events(l, b) /\ Rec("events", l, "none", b, "")
   \/ \E a \in Pick(A0) : NodeFail(truth, a) /\ Rec("nodefail", truth, "none", <<>>, a)
   \/ \E a \in Pick(Addrs) : NodeRecover(truth, a) /\ Rec("noderecover", truth, "none", <<>>, a)
-  \/ \E l \in (IF Sim THEN Pick(Lists) ELSE {truth, Other}) : NodeRecover(l, C0addr) /\ Rec("noderecover", l, "none", <<>>, C0addr)
-  \/ \E l \in (IF Sim THEN Pick(Lists) ELSE {truth, Other}) : ControlLost(l) /\ Rec("ctllost", l, "none", <<>>, "")
+  \/ \E l \in (IF Sim THEN PickList ELSE {truth, Other}) : NodeRecover(l, C0addr) /\ Rec("noderecover", l, "none", <<>>, C0addr)
+  \/ \E l \in (IF Sim THEN PickList ELSE {truth, Other}) : ControlLost(l) /\ Rec("ctllost", l, "none", <<>>, "")
 
 Next ==
   /\ Len(hist) < GenDepth
